@@ -2,7 +2,9 @@
 
 Theorems: coq/Props/Properties_C03.v — the combination technique over a lower set reproduces, at ANY evaluation point, every
 monomial of the declared interpolation space, for any family of one-dimensional interpolation operators that are exact up to a
-monotone degree (any commutative ring; unbounded in dimension, set, degree); hence the interpolation weights sum to one.
+monotone degree (any commutative ring; unbounded in dimension, set, degree); hence the interpolation weights sum to one.  For
+polynomial interpolation the one-dimensional exactness is a theorem too (Lagrange interpolation at n distinct nodes reproduces
+degree < n, Proofs/LagrangeExact.v), which makes c03_sparse_interpolation_exact_unbounded unconditional.
 Direct evaluation on the implementation: every (sampled) monomial of getGlobalPolynomialSpace(true) is loaded and must be
 reproduced by evaluate() and by the interpolation weights at random points, nodes and boundaries (Global, Sequence); every
 trigonometric mode attached to a grid point (Fourier); every affine function (Wavelet; Local Polynomial of order != 0 with
